@@ -35,6 +35,13 @@ def space(tier):
                       {"thread": 1, "timer": 1, "fault": 1, "total": 1 if quick else 2}, cap))
         units.append(({"program": p, "cfg": {"env_kinds": [], "timer_choices": True}},
                       {"thread": 2, "timer": 1, "total": 1 if quick else 2}, cap))
+    # records queued behind an in-flight call: the API call takes 50 ms and the step body ends inside it
+    for names in (("Sd",), ("Hd",), ("Sd", "S"), ("S", "Sd")):
+        p = P.program(names)
+        for pol in ("rtb", "low", "high"):
+            units.append(({"program": p, "cfg": {"env_kinds": ["fault"], "faults": ["5xx", "blackhole"], "api_latency": 0.05,
+                                                 "policy": pol, "timer_choices": pol == "rtb"}},
+                          {"fault": 1, "thread": 1, "timer": 1, "total": 2 if pol == "rtb" else 1}, cap))
     big = {"name": "S+bigresult", "seq": P.U("S"), "ret": {"pad": 6 * 1024 * 1024}}
     units.append(({"program": big, "cfg": {"env_kinds": ["fault"], "faults": ["blackhole", "5xx"]}},
                   {"fault": 1, "total": 1}, cap))
@@ -46,5 +53,5 @@ simcheck.install(globals(), "C03", [monitors.judge_c03], space,
                  "programs: 14 one-unit and 8 two-unit programs over all operation kinds + a handler whose result "
                  "exceeds the response limit; sequential one-unit programs: every schedule with <=2 deviations (thread "
                  "choices and timer-first) and every API call black-holed or failed (5xx) combined with <=1 scheduling "
-                 "deviation; concurrent shapes (parallel/map): <=1 deviation in quick, <=2 in thorough; policies rtb/low/high. Oracle evaluated at the instant of each delivery against the "
+                 "deviation; 4 programs whose step body ends while a 50 ms checkpoint call is in flight (records queued behind an in-flight call), each call failed or black-holed; concurrent shapes (parallel/map): <=1 deviation in quick, <=2 in thorough; policies rtb/low/high. Oracle evaluated at the instant of each delivery against the "
                  "backend's own table.")
